@@ -274,6 +274,8 @@ pub struct RouteCase {
     pub level: u8,
     /// bit i set = cut after byte i+1 (i in 0..15)
     pub cuts: u16,
+    /// the first fragment is already in the connection's read buffer when the service is called
+    pub prebuffered: bool,
 }
 
 pub struct RouteOut {
@@ -289,6 +291,9 @@ pub async fn run_route(case: &RouteCase) -> RouteOut {
     let app = App::new("c19b");
     let mut cfg = ConnCfg::new(role);
     cfg.combined = true;
+    if case.prebuffered {
+        app.extra.borrow_mut().insert("prebuffer".into(), "1".into());
+    }
     let mut c = conn::start_server_raw(&cfg, app.clone()).await;
     let mut stream = refcodec::encode(ver, &cfg.peer_connect()).unwrap();
     let connect_len = stream.len();
@@ -830,20 +835,23 @@ pub fn run(opts: &Opts) -> i32 {
     let mut route_cases: Vec<RouteCase> = Vec::new();
     for level in [4u8, 5] {
         if quick {
-            route_cases.push(RouteCase { level, cuts: 0 });
+            route_cases.push(RouteCase { level, cuts: 0, prebuffered: false });
+            route_cases.push(RouteCase { level, cuts: 0, prebuffered: true });
             for a in 0..15 {
-                route_cases.push(RouteCase { level, cuts: 1 << a });
+                route_cases.push(RouteCase { level, cuts: 1 << a, prebuffered: false });
+                route_cases.push(RouteCase { level, cuts: 1 << a, prebuffered: true });
                 for b in a + 1..15 {
-                    route_cases.push(RouteCase { level, cuts: (1 << a) | (1 << b) });
+                    route_cases.push(RouteCase { level, cuts: (1 << a) | (1 << b), prebuffered: (a + b) % 2 == 0 });
                 }
             }
             let mut rng = Rng::for_case(opts.seed, "c19b", level as u64);
             for _ in 0..1500 {
-                route_cases.push(RouteCase { level, cuts: rng.below(1 << 15) as u16 });
+                route_cases.push(RouteCase { level, cuts: rng.below(1 << 15) as u16, prebuffered: rng.bool() });
             }
         } else {
             for cuts in 0..(1u32 << 15) {
-                route_cases.push(RouteCase { level, cuts: cuts as u16 });
+                route_cases.push(RouteCase { level, cuts: cuts as u16, prebuffered: false });
+                route_cases.push(RouteCase { level, cuts: cuts as u16, prebuffered: true });
             }
         }
     }
@@ -852,7 +860,7 @@ pub fn run(opts: &Opts) -> i32 {
         let case = &route_cases[i as usize];
         let r = exec(run_route(case));
         rep.eval();
-        let rj = json!({"part": "B", "level": case.level, "cuts": case.cuts});
+        let rj = json!({"part": "B", "level": case.level, "cuts": case.cuts, "prebuffered": case.prebuffered});
         match &r {
             Run::Done(o, _) => {
                 rep.distinct(o.sig);
@@ -1005,7 +1013,7 @@ fn replay(path: &std::path::Path) -> i32 {
             }
         }
         "B" => {
-            let rc = RouteCase { level: case["level"].as_u64().unwrap_or(4) as u8, cuts: case["cuts"].as_u64().unwrap_or(0) as u16 };
+            let rc = RouteCase { level: case["level"].as_u64().unwrap_or(4) as u8, cuts: case["cuts"].as_u64().unwrap_or(0) as u16, prebuffered: case["prebuffered"].as_bool().unwrap_or(false) };
             println!("replaying {rc:?}");
             match exec(run_route(&rc)) {
                 Run::Done(o, _) => fail(&o.violations, &o.log),
